@@ -95,6 +95,57 @@ EXTRA = [
 ]
 
 
+RARE = ["&#x2135;", "&#x2295;", "&#x2A01;", "&#x210F;", "&#x2230;", "&#x22C9;", "&#x2136;", "&#x29B5;"]    # characters outside the short Unicode tables
+
+
+def switch_oracle(res, known):
+    """the code is switched inside one session, with characters that only the full Unicode tables define: what comes out
+    after the switch is braille of the new code only (cells for a cell code, no cell and no marker for a text code)"""
+    codes = CELL_CODES + TEXT_CODES
+    body = lambda i: X.math("<mrow><mi>%s</mi><mo>%s</mo><mi>x</mi><mo>%s</mo><mn>2</mn></mrow>" % (RARE[i % len(RARE)], RARE[(i + 1) % len(RARE)], RARE[(i + 3) % len(RARE)]))
+    sessions, meta = [], []
+    for i, c1 in enumerate(codes):
+        ops, m = [["set_rules_dir", C.RULES]], []
+        for j, c2 in enumerate(c for c in codes if c != c1):
+            ops += [["set_preference", "BrailleCode", c1], ["set_mathml", body(i + j)], ["get_braille", ""],
+                    ["set_preference", "BrailleCode", c2], ["get_braille", ""], ["set_mathml", body(i + j + 1)], ["get_braille", ""]]
+            m += [(c1, c1, body(i + j), 2), (c1, c2, body(i + j), 4), (c1, c2, body(i + j + 1), 6)]
+        sessions.append({"id": i, "ops": ops})
+        meta.append(m)
+    out = C.run_harness(sessions)
+    nv = 0
+    fresh = {}
+    for m, s, r in zip(meta, sessions, out):
+        rs = r.get("res", [])[1:]
+        for k, (c1, c2, b, off) in enumerate(m):
+            idx = (k // 3) * 7 + off
+            if idx >= len(rs) or "ok" not in rs[idx]:
+                continue
+            got = rs[idx]["ok"]
+            res.add_case(("switch", c1, c2, b), nontrivial=c1 != c2)
+            if c2 in CELL_CODES:
+                bad = sorted(set(c for c in got if not (0x2800 <= ord(c) <= 0x28FF) and (ord(c) <= 0x7F or c in "𝐖𝘄𝑁𝐶𝑐𝟙𝔹𝐏𝑏")))
+            else:
+                bad = sorted(set(c for c in got if 0xE000 <= ord(c) <= 0xF8FF or ord(c) < 0x20 or c in "𝐖𝐰🣒🣓🣔" or 0x2800 <= ord(c) <= 0x28FF))
+            if not bad and c1 != c2:
+                # a character of the previous code's table that is no marker: compare with a session that only ever had the new code
+                key = (c2, b)
+                if key not in fresh:
+                    fresh[key] = C.one_session([["set_preference", "BrailleCode", c2], ["set_mathml", b], ["get_braille", ""]])["res"][-1].get("ok")
+                if fresh[key] is not None and fresh[key] != got:
+                    bad = ["(differs from the same code in a fresh session: %s)" % fresh[key]]
+            if bad:
+                kid = next((k["id"] for k in known if any(t in b for t in k.get("triggers", []))), None)
+                if kid and c1 == c2:
+                    continue
+                res.violation("after BrailleCode %s -> %s in one session the braille of %s is %r: %s" % (c1, c2, b[:120], got, "".join(bad)[:200]),
+                              {"kind": "switch", "from": c1, "code": c2, "mathml": b, "observed": got, "ops": s["ops"][:1 + (k // 3) * 7 + off + 1]})
+                nv += 1
+                if nv >= 3:
+                    return nv
+    return nv
+
+
 def api_oracle(res, rng, known):
     bodies = list(X.FIXED) + EXTRA
     bodies += ["<mrow><mi>%s</mi><mo>%s</mo><mn>3</mn></mrow>" % (rng.choice(CHARS), rng.choice(CHARS)) for _ in range(10)]
@@ -118,7 +169,7 @@ def api_oracle(res, rng, known):
             sessions.append({"id": len(sessions), "ops": ops})
             meta.append((code, style))
     out = C.run_harness(sessions)
-    nv = 0
+    nv = switch_oracle(res, known)
     for (code, style), r in zip(meta, out):
         rs = r.get("res", [])[3:]
         if style == "Off":
@@ -263,5 +314,10 @@ def replay(path):
         if rep["code"] in CELL_CODES:
             return 1 if any(ord(c) < 0x80 or 0x28C0 <= ord(c) <= 0x28FF for c in x["ok"]) else 0
         return 0
+    if rep.get("kind") == "switch":
+        x = C.one_session(rep["ops"][1:])["res"][-1]
+        f = C.one_session([["set_preference", "BrailleCode", rep["code"]], ["set_mathml", rep["mathml"]], ["get_braille", ""]])["res"][-1]
+        print("after the switch:", x, "\nfresh session:   ", f)
+        return 1 if x != f else 0
     print("replay names a broken obligation, not an input:", rep.get("what"))
     return 1
